@@ -1,12 +1,22 @@
 //! Family binary: whole-Swarm checks over `SwarmSys` (C01, C02, C04–C07, C12b/c, C52, C53, C58).
+mod c04;
+mod c07;
+mod c12;
+mod compose;
 mod life;
 mod sys;
 
 fn main() {
     mc::main_dispatch(&[
+        ("C07", c07::run, c07::META),
         ("C01", life::run_c01, life::META_C01),
         ("C02", life::run_c02, life::META_C02),
+        ("C04", c04::run, c04::META),
         ("C05", life::run_c05, life::META_C05),
         ("C06", life::run_c06, life::META_C06),
+        ("C12", c12::run, c12::META),
+        ("C52", life::run_c52, life::META_C52),
+        ("C53", life::run_c53, life::META_C53),
+        ("C58", life::run_c58, life::META_C58),
     ]);
 }
